@@ -2,7 +2,7 @@
    not acknowledged; the write is parked, answered Timeout at its expiration without storing
    anything, or written as soon as the acknowledgement arrives. *)
 From DustDDS Require Import Base.Machine WriterHist.WriterModel WriterHist.WriterFacts WriterHist.WriterCorr
-  WriterHist.WriterLimits WriterHist.C28Proofs.
+  WriterHist.WriterLimits WriterHist.WriterReg WriterHist.C28Proofs.
 Open Scope Z_scope.
 
 (* ------------------------------------------------------- proxies are only touched by RTPS events *)
@@ -11,7 +11,7 @@ Proof. unfold acked. now intros ->. Qed.
 
 Lemma ent_write_px w h ts now slot w' c : ent_write w h ts now slot = (w', c) -> w_proxies w' = w_proxies w.
 Proof.
-  unfold ent_write. destruct (inst_for_write _ _ _); [|now intros [= <- <-]].
+  unfold ent_write. destruct (inst_refused _ _ _); [now intros [= <- <-]|].
   destruct (mspi_hit _ _ _); [now intros [= <- <-]|]. destruct (ms_hit _ _); [now intros [= <- <-]|].
   destruct (expired _ _ _); now intros [= <- <-].
 Qed.
@@ -39,9 +39,9 @@ Qed.
 
 Lemma ent_write_keeps P w h ts now slot w' c : ent_write w h ts now slot = (w', c) -> keeps P w w'.
 Proof.
-  unfold ent_write. destruct (inst_for_write _ _ _); [|intros [= <- <-]; apply keeps_refl].
-  destruct (mspi_hit _ _ _); [intros [= <- <-]; now apply keeps_same|].
-  destruct (ms_hit _ _); [intros [= <- <-]; now apply keeps_same|].
+  unfold ent_write. destruct (inst_refused _ _ _); [intros [= <- <-]; apply keeps_refl|].
+  destruct (mspi_hit _ _ _); [intros [= <- <-]; apply keeps_refl|].
+  destruct (ms_hit _ _); [intros [= <- <-]; apply keeps_refl|].
   destruct (expired _ _ _); intros [= <- <-]; [now apply keeps_same|].
   intros x Hx. left. wsimpl. apply in_or_app. now left.
 Qed.
@@ -224,13 +224,13 @@ Proof.
       unfold svc_unregister, svc_unreg_or_dispose in E.
       destruct (w_enabled w0); cbn [negb] in E; [|injection E as <- <-; split; [apply keeps_refl|reflexivity]].
       destruct (w_keyed w0); cbn [negb] in E; [|injection E as <- <-; split; [apply keeps_refl|reflexivity]].
-      destruct (has_inst _ _); injection E as <- <-; split; try reflexivity; [|apply keeps_refl].
+      destruct (is_reg _ _); injection E as <- <-; split; try reflexivity; [|apply keeps_refl].
       intros x Hx. left. wsimpl. apply in_or_app. now left.
     - destruct (svc_dispose w0 k ts) as [wx rx] eqn:E. injection E1 as <- <- <-.
       unfold svc_dispose, svc_unreg_or_dispose in E.
       destruct (w_enabled w0); cbn [negb] in E; [|injection E as <- <-; split; [apply keeps_refl|reflexivity]].
       destruct (w_keyed w0); cbn [negb] in E; [|injection E as <- <-; split; [apply keeps_refl|reflexivity]].
-      destruct (has_inst _ _); injection E as <- <-; split; try reflexivity; [|apply keeps_refl].
+      destruct (is_reg _ _); injection E as <- <-; split; try reflexivity; [|apply keeps_refl].
       intros x Hx. left. wsimpl. apply in_or_app. now left.
     - injection E1 as <- <- <-. split; [apply keeps_refl|reflexivity].
     - destruct (svc_write (e_now e) w0 slot k ts) as [wx rx] eqn:E. injection E1 as <- <- <-.
@@ -404,7 +404,7 @@ Lemma ent_write_slots w h ts now slot w' c :
   ent_write w h ts now slot = (w', c) ->
   forall x, In x (w_changes w') -> In x (w_changes w) \/ c_slot x = slot.
 Proof.
-  unfold ent_write. destruct (inst_for_write _ _ _); [|intros [= <- <-]; auto].
+  unfold ent_write. destruct (inst_refused _ _ _); [intros [= <- <-]; auto|].
   destruct (mspi_hit _ _ _); [intros [= <- <-]; auto|]. destruct (ms_hit _ _); [intros [= <- <-]; auto|].
   destruct (expired _ _ _); intros [= <- <-]; wsimpl; auto.
   intros x Hx. apply in_app_or in Hx. destruct Hx as [Hx|[<-|[]]]; auto.
@@ -424,7 +424,7 @@ Lemma ent_write_new w h ts now slot w' c :
   ent_write w h ts now slot = (w', c) ->
   forall x, In x (w_changes w') -> In x (w_changes w) \/ (c_slot x = slot /\ c = 0).
 Proof.
-  unfold ent_write. destruct (inst_for_write _ _ _); [|intros [= <- <-]; auto].
+  unfold ent_write. destruct (inst_refused _ _ _); [intros [= <- <-]; auto|].
   destruct (mspi_hit _ _ _); [intros [= <- <-]; auto|]. destruct (ms_hit _ _); [intros [= <- <-]; auto|].
   destruct (expired _ _ _); intros [= <- <-]; wsimpl; auto.
   intros x Hx. apply in_app_or in Hx. destruct Hx as [Hx|[<-|[]]]; auto.
@@ -512,13 +512,13 @@ Proof.
       unfold svc_unregister, svc_unreg_or_dispose in E.
       destruct (w_enabled w0); cbn [negb] in E; [|injection E as <- <-; now left].
       destruct (w_keyed w0); cbn [negb] in E; [|injection E as <- <-; now left].
-      destruct (has_inst _ _); injection E as <- <-; [|now left].
+      destruct (is_reg _ _); injection E as <- <-; [|now left].
       wsimpl in H1. apply in_app_or in H1. destruct H1 as [H1|[<-|[]]]; [now left|right; now left].
     - destruct (svc_dispose w0 k ts) as [wx rx] eqn:E. injection E1 as <- <- <-.
       unfold svc_dispose, svc_unreg_or_dispose in E.
       destruct (w_enabled w0); cbn [negb] in E; [|injection E as <- <-; now left].
       destruct (w_keyed w0); cbn [negb] in E; [|injection E as <- <-; now left].
-      destruct (has_inst _ _); injection E as <- <-; [|now left].
+      destruct (is_reg _ _); injection E as <- <-; [|now left].
       wsimpl in H1. apply in_app_or in H1. destruct H1 as [H1|[<-|[]]]; [now left|right; now left].
     - injection E1 as <- <- <-. now left.
     - destruct (svc_write (e_now e) w0 slot k ts) as [wx rx] eqn:E. injection E1 as <- <- <-.
@@ -600,7 +600,7 @@ Proof.
   destruct (pop_front_spec w1 h) as ([_ _ Fq] & Pp & Ls & _).
   split; [rewrite P, Pp; reflexivity|].
   intros Hx. unfold ent_write in E.
-  destruct (inst_for_write _ _ _) as [l1|]; [|discriminate].
+  destruct (inst_refused _ _ _); [discriminate|].
   destruct (mspi_hit _ _ _); [discriminate|]. destruct (ms_hit _ _); [discriminate|].
   rewrite Fq in E. change (w_qos w1) with (w_qos w) in E. rewrite Hx in E.
   injection E as <-. wsimpl. apply in_or_app. right. rewrite Ls. now left.
@@ -681,39 +681,28 @@ Proof.
   intros c Hin Hk. apply Hs. auto.
 Qed.
 
-Lemma inst_for_write_samples q h l l1 :
-  inst_for_write q h l = Some l1 -> forall x, samples_of x l1 = samples_of x l.
-Proof.
-  unfold inst_for_write. destruct (has_inst h l) eqn:Eh; [now intros [= <-]|].
-  destruct (len_lt _ _); [|discriminate]. intros [= <-] x.
-  destruct (Z.eq_dec x h) as [->|Hn].
-  - unfold samples_of. rewrite (find_inst_app_new h l (mkInst h None []) Eh eq_refl), (has_inst_false_find _ _ Eh). reflexivity.
-  - apply samples_of_push_other. cbn [i_h]. congruence.
-Qed.
-
 Lemma ent_write_hist w h ts now slot w' c :
   HistInv w -> ent_write w h ts now slot = (w', c) -> HistInv w'.
 Proof.
   intros I H. unfold ent_write in H.
-  destruct (inst_for_write (w_qos w) h (w_insts w)) as [l1|] eqn:E1; [|injection H as <- <-; exact I].
-  pose proof (inst_for_write_samples _ _ _ _ E1) as S1.
-  destruct (inst_for_write_spec _ _ _ _ E1) as (Hh & _).
-  assert (I1 : HistInv (set_insts w l1)).
-  { eapply HistInv_samples_ext; [| | |exact I]; try reflexivity. intros x. wsimpl. rewrite S1. apply incl_refl. }
-  destruct (mspi_hit _ _ _); [injection H as <- <-; exact I1|].
-  destruct (ms_hit _ _); [injection H as <- <-; exact I1|].
+  destruct (inst_refused _ _ _); [injection H as <- <-; exact I|].
+  destruct (mspi_hit _ _ _); [injection H as <- <-; exact I|].
+  destruct (ms_hit _ _); [injection H as <- <-; exact I|].
+  set (l1 := inst_for_write h (w_insts w)) in *.
+  assert (S1 : forall x, samples_of x l1 = samples_of x (w_insts w)) by (intros x; apply samples_of_for_write).
+  assert (Hh : has_inst h l1 = true) by exact (proj1 (inst_for_write_spec h (w_insts w))).
   set (sn := w_last_sn w + 1) in *.
   destruct (proj1 (has_inst_find _ _) Hh) as [s0 Hs0].
-  assert (G : forall x, incl (samples_of x l1) (samples_of x (upd_inst h (record_sample ts sn) l1)) /\
+  assert (G : forall x, incl (samples_of x (w_insts w)) (samples_of x (upd_inst h (record_sample ts sn) l1)) /\
                         In sn (samples_of h (upd_inst h (record_sample ts sn) l1))).
   { intros x. split.
-    - destruct (Z.eq_dec x h) as [->|Hn].
+    - rewrite <- S1. destruct (Z.eq_dec x h) as [->|Hn].
       + rewrite samples_of_upd_same by apply record_sample_h. unfold samples_of. rewrite Hs0.
         cbn [record_sample i_samples]. apply incl_appl, incl_refl.
       + rewrite samples_of_upd_other by (auto using record_sample_h). apply incl_refl.
     - rewrite samples_of_upd_same by apply record_sample_h. rewrite Hs0.
       cbn [record_sample i_samples]. apply in_or_app. right. now left. }
-  destruct I1 as [A B C]. wsimpl in A. wsimpl in B. wsimpl in C.
+  destruct I as [A B C].
   destruct (expired _ _ _); injection H as <- <-.
   - constructor; wsimpl; auto.
     + intros c0 Hin Hk. apply (proj1 (G (c_h c0))). auto.
@@ -805,6 +794,15 @@ Proof.
   - intros c Hin. apply in_app_or in Hin. destruct Hin as [Hin|[<-|[]]]; [specialize (C c Hin); lia|cbn [c_sn]; lia].
 Qed.
 
+Lemma samples_of_updreg x h f l :
+  (forall i, i_h (f i) = i_h i /\ i_samples (f i) = i_samples i) -> samples_of x (upd_reg h f l) = samples_of x l.
+Proof.
+  intros Hf. unfold samples_of, find_inst. induction l as [|y t IH]; cbn [upd_reg find]; [reflexivity|].
+  destruct ((i_h y =? h) && i_reg y); cbn [find].
+  - destruct (Hf y) as [-> Hs]. destruct (i_h y =? x); [exact Hs|reflexivity].
+  - destruct (i_h y =? x); [reflexivity|exact IH].
+Qed.
+
 Lemma apply_op_hist now w o w' imm d : HistInv w -> apply_op now w o = (w', imm, d) -> HistInv w'.
 Proof.
   intros I H. destruct o as [|k ts|k ts|k ts|k|slot k ts|r base count|r rel|r|]; cbn [apply_op] in H.
@@ -823,24 +821,18 @@ Proof.
     unfold svc_unregister, svc_unreg_or_dispose in E.
     destruct (w_enabled w); cbn [negb] in E; [|injection E as <- <-; exact I].
     destruct (w_keyed w); cbn [negb] in E; [|injection E as <- <-; exact I].
-    destruct (has_inst (hof w k) (w_insts w)); injection E as <- <-; [|exact I].
+    destruct (is_reg (hof w k) (w_insts w)); injection E as <- <-; [|exact I].
     apply HistInv_notalive; auto.
     + destruct (q_autodispose (w_qos w)); discriminate.
-    + intros x. destruct (Z.eq_dec x (hof w k)) as [->|Hn].
-      * rewrite samples_of_upd_same by reflexivity. unfold samples_of.
-        destruct (find_inst _ _); apply incl_refl.
-      * rewrite samples_of_upd_other by auto. apply incl_refl.
+    + intros x. rewrite samples_of_updreg by (intros i; split; reflexivity). apply incl_refl.
   - destruct (svc_dispose w k ts) as [w1 r] eqn:E. injection H as <- <- <-.
     unfold svc_dispose, svc_unreg_or_dispose in E.
     destruct (w_enabled w); cbn [negb] in E; [|injection E as <- <-; exact I].
     destruct (w_keyed w); cbn [negb] in E; [|injection E as <- <-; exact I].
-    destruct (has_inst (hof w k) (w_insts w)); injection E as <- <-; [|exact I].
+    destruct (is_reg (hof w k) (w_insts w)); injection E as <- <-; [|exact I].
     apply HistInv_notalive; auto.
     + discriminate.
-    + intros x. destruct (Z.eq_dec x (hof w k)) as [->|Hn].
-      * rewrite samples_of_upd_same by reflexivity. unfold samples_of.
-        destruct (find_inst _ _); apply incl_refl.
-      * rewrite samples_of_upd_other by auto. apply incl_refl.
+    + intros x. rewrite samples_of_updreg by (intros i; split; reflexivity). apply incl_refl.
   - injection H as <- <- <-. exact I.
   - destruct (svc_write now w slot k ts) as [w1 r] eqn:E. injection H as <- <- <-. eapply svc_write_hist; eauto.
   - destruct (process_pending now _) as [w1 dd] eqn:E. injection H as <- <- <-.
@@ -913,4 +905,12 @@ Proof.
     specialize (Li s (find_inst_in _ _ _ Ef)). unfold inst_bound, opt_le in Li. rewrite Hq in Li.
     destruct (1 <=? d) eqn:E; [exact Li|apply Z.leb_gt in E; lia]. }
   unfold zlen in *. lia.
+Qed.
+
+(* a writer can only be created with a consistent QoS, which now means depth >= 1 (depth : u32) *)
+Theorem depth_bound_created keyed enabled q evs d h :
+  qos_consistent q = true -> q_hist q = KeepLast d -> 0 <= d ->
+  zlen (alive_of h (fst (run (init keyed enabled q) evs))) <= d.
+Proof.
+  intros Hc Hq Hd. apply depth_bound; [exact Hq|]. eapply consistent_depth_positive; eauto.
 Qed.
